@@ -39,7 +39,7 @@ RULE = ('(a) generated peer populations (0..120 peers: public/private/loopback/l
         'never raises; ports None or integers 1..65535; is_public implies the host is a valid '
         'hostname (not localhost) or a global non-private address. Non-trivial = the dictionary has '
         'a hosts dict with at least one key. distinct = distinct generated cases.' 
-        '(c) the real PeerManager._should_drop_peer / _verify_peer against a generated remote (per request: conformant answer or one way of failing the check - wrong version shape, height off by 6+/non-integer, other chain\'s header, wrong genesis hash, own host unlisted, malformed peers list - or RPC error / time-out / connection loss; per-request latencies 0..3 s so the order of completion varies; up to four connection attempts; peer previously never / recently / long ago verified), then on_peers_subscribe: last_good may become now only if some connection passed every check; a peer that failed a check with no transport trouble is marked bad and not advertised. Non-trivial (c) = at least four requests were answered and the expected outcome is good or bad.' 
+        '(c) the real PeerManager._should_drop_peer / _verify_peer against a generated remote (per request: conformant answer or one way of failing the check - wrong version shape, height off by 6+/non-integer, other chain\'s header, wrong genesis hash, own host unlisted, malformed peers list - or RPC error / time-out / connection loss; per-request latencies 0..3 s so the order of completion varies; up to four connection attempts; peer previously never / recently / long ago verified), then on_peers_subscribe: last_good may become now only if some connection passed every check, and a peer is advertised only if it was verified now or had been recently and is not marked bad (whether a failed check marks the peer bad is recorded, not judged: the statement does not demand it). Non-trivial (c) = at least four requests were answered and the expected outcome is good or bad.' 
         'c19.fuzz_features: the feature-dictionary grammar steered by libFuzzer coverage (pbt/fuzz.py), same oracle.')
 ASSUMPTIONS = ['the stdlib ipaddress classification (is_global, is_private, ...) is the definition '
                'of routable / private', 'a JSON true port is numerically 1 and counts as valid '
@@ -672,13 +672,10 @@ def run_verify(case):
         return (f'{host} is recorded as verified now although no connection passed every check '
                 f'(failed: {sorted(set(why)) or "height/transport"}); advertised={advertised}',
                 'verify_unearned', info)
-    if expect == 'bad' and not ambiguous:
-        if advertised:
-            return (f'{host} failed a verification check yet is advertised '
-                    f'(bad={peer.bad}, last_good-now={peer.last_good - NOW})', 'verify_failed_adv',
-                    info)
-        if not peer.bad:
-            return f'{host} failed a verification check but is not marked bad', 'verify_not_bad', info
+    # (A peer that fails a check is marked bad by the code as it stands.  The statement only says
+    # what may be advertised - verified recently, not marked bad - so a peer verified a minute ago
+    # that now fails a check without being marked bad would still satisfy it: recorded, not judged.)
+    info['failed_check_not_marked_bad'] = expect == 'bad' and not ambiguous and not peer.bad
     if advertised and not (newly or (prior == NOW - 60 and not peer.bad)):
         return f'{host} advertised without a recent verification', 'verify_adv', info
     return None, None, info
@@ -696,6 +693,8 @@ def verify_body(ctx):
             classes.append('verify.header_mismatch_arrives_last')
         if info['escaped']:
             classes.append('verify.timeout_escaped_as_cancellation')
+        if info.get('failed_check_not_marked_bad'):
+            classes.append('verify.failed_check_not_marked_bad')
         if info['expect'] == 'good' and not info['advertised']:
             classes.append('verify.conformant_not_advertised')
         ctx.record(case=case, nontrivial=info['requests'] >= 4 and info['expect'] != 'unverified',
